@@ -333,7 +333,7 @@ fn open_fds(spec: &Spec, m: &mut Manifest) {
 }
 
 fn main() {
-    let args: Vec<String> = std::env::args().collect();
+    let args: Vec<std::ffi::OsString> = std::env::args_os().collect();
     if args.len() < 2 || args[1] == "idle" {
         // a trivial single-threaded process
         loop {
